@@ -25,9 +25,31 @@ CTV = "melstf::state::applytx::check_tx_validity"
 def r1_consistency(ctx):
     r = ctx.rule("R1", "stake_is_consistent(doc, epoch, coin) ⇔ doc.e_start > epoch ∧ doc.e_post_end > doc.e_start ∧ doc.syms_staked == coin.value")
     b = ctx.body("melstf::state::applytx::stake_is_consistent", r)
-    q.check_conjunction(r, "consistent", b, ["Lt($2, $1.e_start)", "Lt($1.e_start, $1.e_post_end)", "Eq($1.syms_staked, $3.value)"])
+    D, E, C = _consistent_roles(ctx)
+    q.check_conjunction(r, "consistent", b, ["Lt($%d, $%d.e_start)" % (E, D), "Lt($%d.e_start, $%d.e_post_end)" % (D, D), "Eq(%s, %s)" % tuple(sorted(["$%d.syms_staked" % D, "$%d.value" % C]))])
     b2 = ctx.body("melstf::state::applytx::coin_is_denom", r)
     q.check_conjunction(r, "coin_is_denom", b2, ["Eq($1.denom, $2)"])
+
+
+_EL = "elem($2)"
+_DOC = "try(stdcode::deserialize(%s.data))" % _EL
+_COIN = "try(core::slice::<impl [T]>::get(%s.outputs, 0))" % _EL
+_EPOCH = "BlockHeight::epoch($1.height)"
+
+
+def _consistent_roles(ctx):
+    """parameter positions of (doc, epoch, coin) in stake_is_consistent, read off its one call site in load_stake_info (the three
+    have distinct types, so the order of the parameters is a spelling).  Default (1, 2, 3) when the call site does not pass exactly these three."""
+    try:
+        body = ctx.prog.body(LSI)
+    except Exception:
+        body = None
+    if body is not None:
+        for bi, e in q.call_exprs(body, "stake_is_consistent"):
+            got = [sig(a) for a in e[2]]
+            if sorted(got) == sorted([_DOC, _EPOCH, _COIN]):
+                return got.index(_DOC) + 1, got.index(_EPOCH) + 1, got.index(_COIN) + 1
+    return 1, 2, 3
 
 
 def _loop(ctx, r, body, srcsig):
@@ -81,7 +103,8 @@ def r2_registration(ctx):
     for bi, e in cons:
         want = [DOC, "BlockHeight::epoch($1.height)", COIN]
         got = [sig(a) for a in e[2]]
-        r.check(got == want, "consistent/args", "stake_is_consistent(doc, this.height.epoch(), outputs[0])", "stake_is_consistent(%s)" % ", ".join(got), body.where(bi))
+        # the three arguments have distinct types: their order follows the callee's parameter order, which R1 reads off this call
+        r.check(sorted(got) == sorted(want), "consistent/args", "stake_is_consistent(doc, this.height.epoch(), outputs[0])", "stake_is_consistent(%s)" % ", ".join(got), body.where(bi))
         f = force(body, {e: 0})
         r.check(rb not in f.reach, "consistent/false=>unregistered", "an inconsistent stake is not registered", "an inconsistent stake reaches the registration", body.where(bi))
     # SYM check
